@@ -1794,7 +1794,7 @@ arguments
 function
     : identifier '(' arguments ')'
     {
-        $$ = Function{BaseExpr: $1.BaseExpr, Name: $1.Literal, Args: $3}
+        $$ = Function{BaseExpr: $1.BaseExpr, Name: $1.Literal, NameQuoted: $1.Quoted, Args: $3}
     }
     | SUBSTRING '(' arguments ')'
     {
@@ -1829,7 +1829,7 @@ function
 aggregate_function
     : identifier '(' distinct arguments ')'
     {
-        $$ = AggregateFunction{BaseExpr: $1.BaseExpr, Name: $1.Literal, Distinct: $3, Args: $4}
+        $$ = AggregateFunction{BaseExpr: $1.BaseExpr, Name: $1.Literal, NameQuoted: $1.Quoted, Distinct: $3, Args: $4}
     }
     | AGGREGATE_FUNCTION '(' distinct arguments ')'
     {
@@ -1865,11 +1865,11 @@ list_function
 analytic_function
     : identifier '(' arguments ')' OVER '(' analytic_clause_with_windowing ')'
     {
-        $$ = AnalyticFunction{BaseExpr: $1.BaseExpr, Name: $1.Literal, Args: $3, AnalyticClause: $7.(AnalyticClause)}
+        $$ = AnalyticFunction{BaseExpr: $1.BaseExpr, Name: $1.Literal, NameQuoted: $1.Quoted, Args: $3, AnalyticClause: $7.(AnalyticClause)}
     }
     | identifier '(' distinct arguments ')' OVER '(' analytic_clause_with_windowing ')'
     {
-        $$ = AnalyticFunction{BaseExpr: $1.BaseExpr, Name: $1.Literal, Distinct: $3, Args: $4, AnalyticClause: $8.(AnalyticClause)}
+        $$ = AnalyticFunction{BaseExpr: $1.BaseExpr, Name: $1.Literal, NameQuoted: $1.Quoted, Distinct: $3, Args: $4, AnalyticClause: $8.(AnalyticClause)}
     }
     | AGGREGATE_FUNCTION '(' distinct arguments ')' OVER '(' analytic_clause_with_windowing ')'
     {
